@@ -30,13 +30,14 @@ impl Prop for C11 {
             patterns: (1, 4),
             lookahead_pct: gen::draw_lookahead_pct(rng),
             inputs: (1, 2),
-            input_len: (0, 36),
+            input_len: gen_input_len(rng, 36),
+            allow_empty_mode: true,
             ..Knobs::default()
         };
         gen::gen_world(rng, &k).world
     }
     fn new_gen<'w>(&self, world: &'w World, rng: &mut Rng) -> Box<dyn Gen + 'w> {
-        Box::new(Gen11 { m: GenModel::new(world, 1, 2), len: rng.range(6, 45) })
+        Box::new(Gen11 { m: GenModel::new(world, 1, 2), len: gen_history_len(rng, 6, 45) })
     }
     fn new_exec<'w>(&self, world: &'w World) -> Box<dyn Exec + 'w> {
         Box::new(Exec11 { world, scanners: vec![], iters: vec![] })
